@@ -1,5 +1,6 @@
 import YatimlModel.Model.Process
 import YatimlModel.Lemmas.Unrelated
+import YatimlModel.Lemmas.KindErase
 /-!
 # C13 — load is invariant under changes that do not alter the document's meaning
 
@@ -122,5 +123,38 @@ theorem C13_unrelated_class (env : Env) (d : ClassDef) (hu : Unrelated env d) (f
     (hn : TagFree ("!" ++ d.name) n) (hT : NoU d.name T) :
     recognize (env.plus d) fuel n T = recognize env fuel n T :=
   recognizeReq_plus env d hu fuel n (.ty T) hn hT
+
+/-! ### interchanged container annotations -/
+
+/-- **List / Sequence / MutableSequence and Dict / Mapping / MutableMapping are interchangeable as far as
+the documented language goes.**  Two class models and types that differ only in which of the three
+spellings their annotations use (they have the same erasure) admit exactly the same nodes. -/
+theorem C13_kind_interchange_language (env env2 : Env) (T T2 : Ty)
+    (he : eraseEnv env = eraseEnv env2) (ht : eraseKinds T = eraseKinds T2) (fuel : Nat) (n : Node) :
+    Spec.matchesTy env fuel n T = Spec.matchesTy env2 fuel n T2 := by
+  unfold Spec.matchesTy
+  rw [← matches_erase env fuel n (.ty T), ← matches_erase env2 fuel n (.ty T2)]
+  simp only [eraseReq, he, ht]
+
+/-- Lifted to the recogniser (class models without custom recognisers, nodes without user tags): under
+either spelling, whenever both recognitions return, the node is recognised as *some* type under the one
+iff it is under the other — a document is never rejected for lack of a matching type under one spelling
+and accepted under the other.  (What can differ is *ambiguity*: `Union[List[int], Sequence[int]]` names one
+kind of list twice; DESIGN.md 7a.) -/
+theorem C13_kind_interchange_recognised (env env2 : Env) (T T2 : Ty)
+    (hauto : AutoRecognised env) (hauto2 : AutoRecognised env2)
+    (he : eraseEnv env = eraseEnv env2) (ht : eraseKinds T = eraseKinds T2) (fuel : Nat) (n : Node)
+    (hcore : AllCore n) (ts ts2 : List Ty) (ls ls2 : List Leaf)
+    (h1 : recognize env fuel n T = .ok (ts, ls)) (h2 : recognize env2 fuel n T2 = .ok (ts2, ls2)) :
+    ts ≠ [] ↔ ts2 ≠ [] := by
+  have a := recognizeReq_iff_matches env hauto fuel n (.ty T) ts ls hcore h1
+  have b := recognizeReq_iff_matches env2 hauto2 fuel n (.ty T2) ts2 ls2 hcore h2
+  have c := C13_kind_interchange_language env env2 T T2 he ht fuel n
+  unfold Spec.matchesTy at c
+  rw [a, b, c]
+
+-- non-vacuity: two spellings of the same model
+example : eraseKinds (.seq .sequence (.map .mutableMapping .str .int))
+    = eraseKinds (.seq .mutableSequence (.map .mapping .str .int)) := rfl
 
 end YatimlModel.C13
